@@ -89,7 +89,27 @@ func shape(v ssa.Value, depth int, seen map[ssa.Value]bool) string {
 		}
 		return x.Value.ExactString()
 	case *ssa.Parameter:
-		return x.Name()
+		if fn := x.Parent(); IsNew(fn) && !seen[x] {
+			// a helper that did not exist at review time: the parameter stands for the arguments at its call sites
+			if alts := argsAtSites(x); len(alts) > 0 {
+				seen[x] = true
+				defer delete(seen, x)
+				m := map[string]bool{}
+				for _, a := range alts {
+					m[shape(a, depth+1, seen)] = true
+				}
+				var ks []string
+				for k := range m {
+					ks = append(ks, k)
+				}
+				sort.Strings(ks)
+				if len(ks) == 1 {
+					return ks[0]
+				}
+				return "φ{" + strings.Join(ks, " | ") + "}"
+			}
+		}
+		return ParamName(x)
 	case *ssa.Global:
 		return x.Name()
 	case *ssa.Function:
@@ -160,8 +180,18 @@ func shape(v ssa.Value, depth int, seen map[ssa.Value]bool) string {
 		}
 		return shape(x.X, depth+1, seen) + "[" + lo + ":" + hi + "]"
 	case *ssa.Extract:
+		if c, ok := x.Tuple.(*ssa.Call); ok {
+			if s, ok := shapeOfNewCall(c, x.Index, depth, seen); ok {
+				return s
+			}
+		}
 		return shape(x.Tuple, depth+1, seen) + fmt.Sprintf("#%d", x.Index)
 	case *ssa.Call:
+		if x.Call.Signature().Results().Len() == 1 {
+			if s, ok := shapeOfNewCall(x, 0, depth, seen); ok {
+				return s
+			}
+		}
 		var args []string
 		for _, a := range x.Call.Args {
 			args = append(args, shape(a, depth+1, seen))
@@ -171,7 +201,7 @@ func shape(v ssa.Value, depth int, seen map[ssa.Value]bool) string {
 		}
 		name := "?"
 		if f := x.Call.StaticCallee(); f != nil {
-			name = f.Name()
+			name = RefFuncName(f)
 			if f.Pkg != nil && f.Signature.Recv() == nil && !strings.HasPrefix(f.Pkg.Pkg.Path(), "github.com/segmentio") {
 				name = f.Pkg.Pkg.Name() + "." + name
 			}
@@ -208,7 +238,7 @@ func shape(v ssa.Value, depth int, seen map[ssa.Value]bool) string {
 	case *ssa.Range:
 		return "range(" + shape(x.X, depth+1, seen) + ")"
 	case *ssa.FreeVar:
-		return "free:" + x.Name()
+		return "free:" + freeVarName(x)
 	}
 	return fmt.Sprintf("%T", v)
 }
@@ -225,7 +255,7 @@ func shapeLoad(addr ssa.Value, depth int, seen map[ssa.Value]bool) string {
 				}
 			}
 			if n >= 2 {
-				return "$" + a.Comment
+				return "$" + CellName(a)
 			}
 		}
 		if seen[a] {
@@ -259,4 +289,122 @@ func shapeLoad(addr ssa.Value, depth int, seen map[ssa.Value]bool) string {
 		return a.Name()
 	}
 	return "*" + shape(addr, depth+1, seen)
+}
+
+// freeVarName names a captured variable after the variable of the enclosing function it is bound to.
+// FreeVarName is exported for rules that match captured variables by name.
+func FreeVarName(x *ssa.FreeVar) string { return freeVarName(x) }
+
+func freeVarName(x *ssa.FreeVar) string {
+	fn := x.Parent()
+	idx := -1
+	for i, fv := range fn.FreeVars {
+		if fv == x {
+			idx = i
+		}
+	}
+	if par := fn.Parent(); par != nil && idx >= 0 {
+		for _, blk := range par.Blocks {
+			for _, ins := range blk.Instrs {
+				if mc, ok := ins.(*ssa.MakeClosure); ok && mc.Fn == fn && idx < len(mc.Bindings) {
+					switch b := mc.Bindings[idx].(type) {
+					case *ssa.Alloc:
+						return CellName(b)
+					case *ssa.FreeVar:
+						return freeVarName(b)
+					case *ssa.Parameter:
+						return ParamName(b)
+					}
+				}
+			}
+		}
+	}
+	return x.Name()
+}
+
+// argsAtSites lists the arguments bound to a parameter of a new function at its static call sites.
+func argsAtSites(x *ssa.Parameter) []ssa.Value {
+	fn := x.Parent()
+	idx := -1
+	for i, p := range fn.Params {
+		if p == x {
+			idx = i
+		}
+	}
+	if idx < 0 {
+		return nil
+	}
+	var out []ssa.Value
+	for _, site := range SitesOf(fn) {
+		args := site.Common().Args
+		if idx < len(args) {
+			out = append(out, args[idx])
+		}
+	}
+	return out
+}
+
+// ReturnedValues lists result i of every return of fn (through defer-spilled results).
+func ReturnedValues(fn *ssa.Function, i int) []ssa.Value {
+	var out []ssa.Value
+	for _, b := range fn.Blocks {
+		for _, ins := range b.Instrs {
+			if ret, ok := ins.(*ssa.Return); ok && i < len(ret.Results) {
+				out = append(out, RetVal(ret, i))
+			}
+		}
+	}
+	return out
+}
+
+// shapeOfNewCall renders result i of a call to a function that did not exist at review time as the value it returns.
+func shapeOfNewCall(c *ssa.Call, i int, depth int, seen map[ssa.Value]bool) (string, bool) {
+	callee := c.Call.StaticCallee()
+	if callee == nil || !IsNew(callee) || seen[c] {
+		return "", false
+	}
+	rets := ReturnedValues(callee, i)
+	if len(rets) == 0 {
+		return "", false
+	}
+	seen[c] = true
+	defer delete(seen, c)
+	m := map[string]bool{}
+	for _, r := range rets {
+		m[shape(r, depth+1, seen)] = true
+	}
+	var ks []string
+	for k := range m {
+		ks = append(ks, k)
+	}
+	sort.Strings(ks)
+	if len(ks) == 1 {
+		return ks[0], true
+	}
+	return "φ{" + strings.Join(ks, " | ") + "}", true
+}
+
+// ArgsAtSites returns, for a parameter of a function that did not exist at review time, the arguments bound to
+// it and the corresponding call instructions.
+func ArgsAtSites(x *ssa.Parameter) ([]ssa.Value, []ssa.Instruction) {
+	fn := x.Parent()
+	idx := -1
+	for i, p := range fn.Params {
+		if p == x {
+			idx = i
+		}
+	}
+	var vals []ssa.Value
+	var sites []ssa.Instruction
+	if idx < 0 {
+		return nil, nil
+	}
+	for _, site := range SitesOf(fn) {
+		args := site.Common().Args
+		if idx < len(args) {
+			vals = append(vals, args[idx])
+			sites = append(sites, site.(ssa.Instruction))
+		}
+	}
+	return vals, sites
 }
